@@ -504,6 +504,27 @@ def ob_native():
                         tot += np.log2(1 + Ss[k][l])
                 if np.isfinite(tot) and (not (abs(s.calc_sum_capacity() - tot) <= 1e-9 * max(1.0, tot))):
                     return {"sum capacity": [float(s.calc_sum_capacity()), float(tot)]}
+            # an explicitly given full_F that uses only part of the power (as the MMSE / stream-reduction solvers set it)
+            s2 = alg.ClosedFormIASolver(o)
+            part = np.empty(K, dtype=object)
+            for k in range(K):
+                part[k] = Fn[k] * np.sqrt(P[k]) * float(rr.uniform(0.3, 0.9))
+            s2.set_precoders(Fn, part, P)
+            s2.set_receive_filters(None, U)
+            try:
+                S2 = s2.calc_SINR()
+            except np.linalg.LinAlgError:
+                S2 = None
+            if S2 is not None:
+                Ue2 = np.empty(K, dtype=object)
+                for k in range(K):
+                    Heq = U[k].conj().T @ Hb[k][k] @ part[k]
+                    Ue2[k] = (np.linalg.solve(Heq, U[k].conj().T)).conj().T
+                for k in range(K):
+                    for l in range(Ns[k]):
+                        want = _fp_sinr(Hb, part, Ue2, k, l, nv)
+                        if np.isfinite(want) and (not (abs(S2[k][l] - want) <= 1e-8 * max(1.0, abs(want)))):
+                            return {"solver with an explicit full_F vs first principles": [k, l, float(S2[k][l]), float(want)]}
             # joint processing
             tot_t = int(Nt.sum())
             G = np.empty(K, dtype=object)
